@@ -529,7 +529,21 @@ class ProvRDFSerializer(Serializer):
         for key, val in PROV_BASE_CLS.items():
             PROV_CLS_MAP[key.uri] = PROV_BASE_CLS[key]
         other_attributes = {}
-        for stmt in graph.triples((None, RDF.type, None)):
+        # An rdf:type naming a PROV record type decides what a node is; look at
+        # those first, so that a further type naming a PROV subtype (e.g. an
+        # agent typed prov:Quotation) is kept as a prov:type attribute and does
+        # not, depending on the order of the triples, turn the node into a
+        # record of the subtype's base type.
+        type_stmts = sorted(
+            graph.triples((None, RDF.type, None)),
+            key=lambda stmt: (
+                0
+                if str(stmt[2]) in PROV_CLS_MAP
+                and PROV_CLS_MAP[str(stmt[2])].uri == str(stmt[2])
+                else 1
+            ),
+        )
+        for stmt in type_stmts:
             id = str(stmt[0])
             obj = str(stmt[2])
             if obj in PROV_CLS_MAP:
